@@ -116,6 +116,35 @@ Proof.
 Qed.
 
 (* ---------------------------------------------------------------- phases of read_main *)
+(* an unknown version is rejected at the version field, before anything is handed to the consumer:
+   whatever follows, for every version byte other than 0 (v1) and 1 (v2) *)
+Lemma header_rejects_version s c (v : N) rest :
+  core_of s = c -> c_rest c = ([2; 1; v]%N ++ rest) -> (2 <= v)%N ->
+  exists s', read_tbs_header L s = (Err e_version, s') /\ c_evs (core_of s') = c_evs c.
+Proof.
+  intros Hc Hr Hv. unfold read_tbs_header.
+  assert (Hstep : runs (has_v <- version_exists ;; version <- (if has_v then parse_version else ret 1%Z) ;; ret version) s
+                       (Z.of_N v + 1)%Z (adv c [2; 1; v]%N rest)).
+  { eapply runs_bind.
+    { eapply runs_peek_bool. apply (peek_tl_ok s c TAG_INT 1 (v :: rest) Hc); [unfold hdr_ok, two63; lia|exact Hr]. }
+    intros s1 H1. cbn [t_tag t_len]. rewrite N.eqb_refl, Z.eqb_refl. cbn [andb].
+    eapply runs_bind; [|intros s3 H3; apply runs_ret; exact H3].
+    unfold parse_version.
+    eapply runs_bind; [eapply runs_ignore; apply (read_tl_ok s1 c TAG_INT 1 (v :: rest) H1); [unfold hdr_ok, two63; lia|exact Hr]|].
+    intros s2 H2.
+    eapply runs_bind; [apply (read_bytes_ok s2 _ [v] rest H2); reflexivity|]. intros s3 H3.
+    cbn [hd]. apply runs_ret. rewrite H3. solve_adv. }
+  destruct Hstep as (s1 & E1 & H1). unfold bindM in E1.
+  unfold bindM at 1.
+  destruct (version_exists s) as [[hv| | |] sv] eqn:Eve; try discriminate.
+  unfold bindM at 1.
+  destruct ((if hv then parse_version else ret 1%Z) sv) as [[ver| | |] s1'] eqn:Epv; try discriminate.
+  cbn in E1. injection E1 as -> ->.
+  assert (Hver : (2 <? Z.of_N v + 1)%Z = true) by (apply Z.ltb_lt; lia).
+  unfold bindM at 1. rewrite Hver. unfold fail. exists s1. split; [reflexivity|].
+  rewrite H1. unfold adv. cbn. reflexivity.
+Qed.
+
 Definition hdr_bytes (d : crl_doc) : bytes :=
   enc_version d ++ tlv TAG_SEQ (d_inner_alg d) ++ tlv TAG_SEQ (d_issuer d) ++ tlv TAG_UTC (d_this d)
   ++ opt_bytes (option_map (tlv TAG_UTC) (d_next d)).
